@@ -324,19 +324,20 @@ Print Assumptions C18_file_roundtrip.
    of a MatrixIndicesMap (Volume placed before the first voxel BrainModel / first in a parcels map,
    one Surface for EVERY nvertices entry, NamedMaps, Parcels with their Vertices), parametric in
    the interning of map names / metadata / label tables / voxel tables (premises: every content
-   has the id it was given).  (1) the exact normalisation for Scalar and Label axes (S-C18c at
+   has the id it was given) and in scale10 = value * 10 ** SeriesExponent on series values
+   (premise: x * 10 ** 0 = x; to_mapping always writes exponent 0).  (1) the exact normalisation for Scalar and Label axes (S-C18c at
    the level of the axes): what comes back are the ids of the stripped names, rebuilt metadata
    and label tables. *)
-Theorem C18_scalar_label_normalisation : forall name_str name_id meta_c meta_id label_c label_id vox_c vox_id,
+Theorem C18_scalar_label_normalisation : forall name_str name_id meta_c meta_id label_c label_id vox_c vox_id scale10,
   (forall a, sc_wf a ->
-     xrt name_str name_id meta_c meta_id label_c label_id vox_c vox_id (ASc a)
+     xrt name_str name_id meta_c meta_id label_c label_id vox_c vox_id scale10 (ASc a)
      = Ok (ASc (mkSc (map (nname name_str name_id) (sc_name a)) (map (nmeta meta_c meta_id) (sc_meta a)))))
   /\ (forall a, lab_wf a ->
-     xrt name_str name_id meta_c meta_id label_c label_id vox_c vox_id (ALab a)
+     xrt name_str name_id meta_c meta_id label_c label_id vox_c vox_id scale10 (ALab a)
      = Ok (ALab (mkLab (map (nname name_str name_id) (lb_name a)) (map (nlabel label_c label_id) (lb_label a))
                        (map (nmeta meta_c meta_id) (lb_meta a))))).
 Proof.
-  exact (fun ns ni mc mi lc li vc vi => conj (join_scalar_norm ns ni mc mi lc li vc vi) (join_label_norm ns ni mc mi lc li vc vi)).
+  exact (fun ns ni mc mi lc li vc vi sc => conj (join_scalar_norm ns ni mc mi lc li vc vi sc) (join_label_norm ns ni mc mi lc li vc vi sc)).
 Qed.
 Print Assumptions C18_scalar_label_normalisation.
 
@@ -347,9 +348,10 @@ Print Assumptions C18_scalar_label_normalisation.
 Theorem C18_to_mapping_roundtrip : forall name_str name_id meta_c meta_id label_c label_id vox_c vox_id,
   (forall i, name_id (Some (name_str i)) = i) -> (forall i, meta_id (meta_c i) = i) ->
   (forall i, label_id (label_c i) = i) -> (forall i, vox_id (vox_c i) = i) ->
+  forall scale10, (forall v, scale10 v 0 = v) ->
   forall bs_valid a, axis_good name_str meta_c label_c bs_valid a ->
   exists m a', xenc name_str meta_c label_c vox_c a = Ok m
-    /\ xdec name_id meta_id label_id vox_id (norm_payload m) = Ok a' /\ axis_eqb a' a = true.
+    /\ xdec name_id meta_id label_id vox_id scale10 (norm_payload m) = Ok a' /\ axis_eqb a' a = true.
 Proof. exact axis_good_roundtrip. Qed.
 Print Assumptions C18_to_mapping_roundtrip.
 
@@ -360,6 +362,7 @@ Print Assumptions C18_to_mapping_roundtrip.
 Theorem C18_axes_end_to_end : forall name_str name_id meta_c meta_id label_c label_id vox_c vox_id,
   (forall i, name_id (Some (name_str i)) = i) -> (forall i, meta_id (meta_c i) = i) ->
   (forall i, label_id (label_c i) = i) -> (forall i, vox_id (vox_c i) = i) ->
+  forall scale10, (forall v, scale10 v 0 = v) ->
   forall bs_valid show_ints show_vox show_matrix loadtxt_ints loadtxt_floats,
   show_ints [] = [] ->
   (forall l, l <> [] -> show_ints l <> [] /\ loadtxt_ints (strip (show_ints l)) = Some l) ->
@@ -370,7 +373,7 @@ Theorem C18_axes_end_to_end : forall name_str name_id meta_c meta_id label_c lab
     /\ write show_ints show_vox show_matrix (mat_header mat) = XOk ev
     /\ parse bs_valid loadtxt_ints loadtxt_floats ev = XOk (norm (mat_header mat))
     /\ forall i ax, nth_error axes i = Some ax ->
-         exists a', get_axis (xdec name_id meta_id label_id vox_id) (header_mat (norm (mat_header mat))) (Z.of_nat i) = Ok a'
+         exists a', get_axis (xdec name_id meta_id label_id vox_id scale10) (header_mat (norm (mat_header mat))) (Z.of_nat i) = Ok a'
                     /\ axis_eqb a' ax = true.
 Proof. exact axes_end_to_end. Qed.
 Print Assumptions C18_axes_end_to_end.
